@@ -1,7 +1,49 @@
-(* placeholder until the codec theorems land *)
+(* C13 - persisted state survives save / restart unchanged.  Statements only; proofs in Theory/Reload.v
+   (from Theory/Roundtrip.v).  Each of the five persistence points, as produced by the API, decodes from
+   its own native encoding to exactly itself; the next step is a function of that value, so a reload at
+   any step boundary changes nothing observable.  serde (bincode / JSON) is not modelled: the harness
+   performs the real round trips and the model predicts "no change" (correspondence part of the check). *)
 From Coq Require Import List.
-From OKE Require Import BytesLemmas.
-Theorem C13_placeholder : forall l x y px py r1 r2,
-  Bytes.lenprefix l x = Some px -> Bytes.lenprefix l y = Some py -> px ++ r1 = py ++ r2 -> x = y /\ r1 = r2.
-Proof. exact lenprefix_inj. Qed.
-Print Assumptions C13_placeholder.
+From OKE Require Import Bytes Suite Voprf Messages Envelope TripleDH Opaque Laws Reload.
+
+Theorem C13_server_setup :
+  forall E Sc Pk Sk (CS : Suite E Sc Pk Sk), GroupLaws CS -> forall tape setup rest,
+    server_setup_new CS tape = Ok (setup, rest) ->
+    server_setup_deserialize CS (private_key_ops (ke CS)) (server_setup_serialize CS (private_key_ops (ke CS)) setup) = Ok setup.
+Proof. exact @reload_server_setup. Qed.
+Print Assumptions C13_server_setup.
+
+Theorem C13_client_registration_state :
+  forall E Sc Pk Sk (CS : Suite E Sc Pk Sk), GroupLaws CS -> forall tape pw st m rest,
+    ve CS (o_h2g (oprf CS) pw (dst_hash_to_group (oprf CS))) ->
+    client_registration_start CS tape pw = Ok (st, m, rest) ->
+    client_registration_deserialize CS (client_registration_serialize CS st) = Ok st /\
+    registration_request_deserialize CS (registration_request_serialize CS m) = Ok m.
+Proof. exact @reload_client_registration. Qed.
+Print Assumptions C13_client_registration_state.
+
+Theorem C13_password_file :
+  forall E Sc Pk Sk (CS : Suite E Sc Pk Sk), HashLaws (hash CS) -> GroupLaws CS ->
+  forall st tape pw rr ids ksf upload ek spk rest,
+    client_registration_finish CS st tape pw rr ids ksf = Ok (upload, ek, spk, rest) ->
+    registration_upload_deserialize CS (registration_upload_serialize CS (server_registration_finish upload))
+      = Ok (server_registration_finish upload).
+Proof. exact @reload_password_file. Qed.
+Print Assumptions C13_password_file.
+
+Theorem C13_client_login_state :
+  forall E Sc Pk Sk (CS : Suite E Sc Pk Sk), GroupLaws CS -> forall tape pw st m rest,
+    ve CS (o_h2g (oprf CS) pw (dst_hash_to_group (oprf CS))) ->
+    client_login_start CS tape pw = Ok (st, m, rest) ->
+    client_login_deserialize CS (client_login_serialize CS st) = Ok st /\
+    credential_request_deserialize CS (credential_request_serialize CS m) = Ok m.
+Proof. exact @reload_client_login. Qed.
+Print Assumptions C13_client_login_state.
+
+Theorem C13_server_login_state :
+  forall E Sc Pk Sk (CS : Suite E Sc Pk Sk), HashLaws (hash CS) ->
+  forall S (SK : SkOps Pk S) tape setup file rq cred ctx ids st resp rest dbg,
+    server_login_start CS SK tape setup file rq cred ctx ids = Ok (st, resp, rest, dbg) ->
+    server_login_deserialize CS (server_login_serialize st) = Ok st.
+Proof. exact @reload_server_login. Qed.
+Print Assumptions C13_server_login_state.
